@@ -34,6 +34,7 @@ class Kind(object):
     def __init__(self, name, kind, op, vals, currents, wrap):
         self.name, self.kind, self.op, self.vals, self.currents, self.wrap = name, kind, op, vals, currents, wrap
         self.vo = wrap != "raw"
+        self.lazy = "callable" if wrap == "callable" else "vo" if wrap.startswith("lazy") else "no"
 
     def spec(self, cur):
         if self.kind == "str":
@@ -44,16 +45,16 @@ class Kind(object):
             return _v(b=cur)
         return _v(st=cur)
 
-    def entry(self, cur):
-        """the object put into the value provider for current value `cur`"""
+    def entry(self, cell):
+        """the object put into the value provider; cell = [current value]: lazy entries read it on every evaluation"""
         from behave.tag_matcher import ValueObject, NumberValueObject, BoolValueObject
         ops = {"eq": operator.eq, "ne": operator.ne, "ge": operator.ge, "le": operator.le, "contains": operator.contains}
         w = self.wrap
         if w == "raw":
-            return cur
+            return cell[0]
         if w == "callable":                       # a plain callable as provider value: evaluated lazily
-            return lambda: cur
-        value = (lambda: cur) if w.startswith("lazy") else cur
+            return lambda: cell[0]
+        value = (lambda: cell[0]) if w.startswith("lazy") else cell[0]
         if self.kind == "num":
             return NumberValueObject(value, ops[self.op])
         if self.kind == "bool":
@@ -108,6 +109,9 @@ CONFIGS = [
     Cfg("comp", pk="comp", mpk=("dict", "dict"), mem=(1, 2), k1=STR_CALL, k2=STR_LAZY),
     Cfg("comp_plain", pk="comp", mpk=("dict", "dict", "dict"), mem=(3, 1)),
     Cfg("comp_atvp", pk="comp", mpk=("atvp", "dict", "atvp"), mem=(3, 1)),
+    Cfg("comp_lazy", pk="comp", mpk=("dict", "dict"), mem=(2, 2), k1=STR_CALL, k2=BOOL2, cats=("browser", "py3", "zz")),
+    Cfg("comp_atvp_lazyvo", pk="comp", mpk=("atvp", "atvp"), mem=(1, 2), k1=STR_LAZY, k2=NUM_LE, cats=("os", "temp.max", "zz")),
+    Cfg("comp_atvp_callable", pk="comp", mpk=("dict", "atvp"), mem=(2, 1), k1=STR_CALL, k2=STR_LAZY),
     Cfg("vo_num_ge_le", k1=NUM_GE, k2=NUM_LE, cats=("temp.min_value", "temp.max_value", "temp.value")),
     Cfg("vo_num_bad_bool", k1=NUM_GE_BAD, k2=BOOL, cats=("level", "py3", "zz")),
     Cfg("vo_bool_bad_set", k1=BOOL_BAD, k2=SET, cats=("flag", "pay", "zz")),
@@ -174,7 +178,7 @@ def extra_texts(cfg):
 
 # ------------------------------------------------------------------------------------------------ the real code
 def build(cfg, combo):
-    """fresh provider(s) and matcher for one combination of current values; returns (matcher, members)"""
+    """fresh provider(s) and matcher for one combination of current values; returns (matcher, members, value cells)"""
     from behave.tag_matcher import (ActiveTagMatcher, CompositeTagMatcher, ActiveTagValueProvider,
                                     CompositeActiveTagValueProvider)
     kw = {}
@@ -185,12 +189,13 @@ def build(cfg, combo):
     if cfg.ign is not None:
         kw["ignore_unknown_categories"] = cfg.ign
     if cfg.noprov:
-        return ActiveTagMatcher(None, **kw), []
-    ents = [(cfg.cats[0], cfg.k1.entry(cfg.k1.currents[combo[0] - 1]), cfg.mem[0]),
-            (cfg.cats[1], cfg.k2.entry(cfg.k2.currents[combo[1] - 1]), cfg.mem[1])]
+        return ActiveTagMatcher(None, **kw), [], []
+    cells = [[cfg.k1.currents[combo[0] - 1]], [cfg.k2.currents[combo[1] - 1]]]
+    ents = [(cfg.cats[0], cfg.k1.entry(cells[0]), cfg.mem[0]),
+            (cfg.cats[1], cfg.k2.entry(cells[1]), cfg.mem[1])]
     if cfg.mk == "composite":
         members = [ActiveTagMatcher(dict((n, e) for n, e, m in ents if m == k), **kw) for k in range(1, cfg.nm + 1)]
-        return CompositeTagMatcher(members), members
+        return CompositeTagMatcher(members), members, cells
     if cfg.pk == "dict":
         prov = dict((n, e) for n, e, m in ents)
     elif cfg.pk == "atvp":
@@ -200,10 +205,10 @@ def build(cfg, combo):
         for k, mpk in enumerate(cfg.mpk, 1):
             d = dict((n, e) for n, e, m in ents if m == k)
             if cfg.overlap and k == 2:
-                d[cfg.cats[0]] = cfg.k1.entry(cfg.k1.currents[combo[0] % 3])      # a later member disagrees on c1
+                d[cfg.cats[0]] = cfg.k1.entry([cfg.k1.currents[combo[0] % 3]])    # a later member disagrees on c1
             mems.append(d if mpk == "dict" else ActiveTagValueProvider(d))
         prov = CompositeActiveTagValueProvider(mems)
-    return ActiveTagMatcher(prov, **kw), []
+    return ActiveTagMatcher(prov, **kw), [], cells
 
 
 def observe(rid, cfg, tags):
@@ -213,34 +218,44 @@ def observe(rid, cfg, tags):
     combos = [[a, b] for a in (1, 2, 3) for b in (1, 2, 3)] if kinds else [[]]
     cats = []
     for idx, k in enumerate(kinds):
-        cats.append({"name": chars(cfg.cats[idx]), "kind": k.kind, "op": k.op, "vo": bool(k.vo), "mem": cfg.mem[idx],
-                     "ch": [k.spec(c) for c in k.currents]})
+        cats.append({"name": chars(cfg.cats[idx]), "kind": k.kind, "op": k.op, "vo": bool(k.vo), "lazy": k.lazy,
+                     "mem": cfg.mem[idx], "ch": [k.spec(c) for c in k.currents]})
     if cfg.overlap:   # the disagreeing entry of member 2 (only the algorithm model looks at it)
         k = cfg.k1
-        cats.append({"name": chars(cfg.cats[0]), "kind": k.kind, "op": k.op, "vo": bool(k.vo), "mem": 2,
+        cats.append({"name": chars(cfg.cats[0]), "kind": k.kind, "op": k.op, "vo": bool(k.vo), "lazy": "no", "mem": 2,
                      "ch": [k.spec(k.currents[c % 3]) for c in (1, 2, 3)]})
         combos = [[a, b, a] for a, b in combos]
+    # phase 2: every lazy entry returns its next value, everything else keeps its value
+    combos2 = [[(c % 3) + 1 if k < len(kinds) and kinds[k].lazy != "no" else c for k, c in enumerate(combo)] for combo in combos]
     warm = ["%s.with_%s%s%s" % (P[p], cfg.cats[c], cfg.S(), value_text(cfg, c, v)) for p, c, v in
             ([(0, 2, 0)] if cfg.noprov else WARM_ABS)]
     row = {"id": rid, "cfg": cfg.name, "P": [chars(p) for p in P], "N": [chars(P[1]), chars(P[3])], "sep": chars(cfg.S()),
            "tags": [chars(t) for t in tags], "warm": [chars(t) for t in warm], "pk": cfg.pk, "mpk": list(cfg.mpk),
            "mk": cfg.mk, "nm": cfg.nm, "ign": cfg.ign is not False, "judge": bool(cfg.judge), "cats": cats, "combos": combos,
-           "ex": [], "run": [], "ex2": [], "mex": [], "exc": []}
-    for combo in combos:
-        ex = run = ex2 = False
-        mex = []
+           "combos2": combos2, "ex": [], "run": [], "ex2": [], "mex": [], "exc": [], "ex3": [], "run3": [], "mex3": []}
+    for combo, combo2 in zip(combos, combos2):
+        ex = run = ex2 = ex3 = run3 = False
+        mex, mex3 = [], []
         exc = ""
         try:
-            m, members = build(cfg, combo)
+            m, members, cells = build(cfg, combo)
             ex = bool(m.should_exclude_with(list(tags)))
             run = bool(m.should_run_with(list(tags)))
             mex = [bool(x.should_exclude_with(list(tags))) for x in members]
             m.should_exclude_with(list(warm))
             ex2 = bool(m.should_exclude_with(list(tags)))
+            for k, cell in enumerate(cells):                     # the lazy values change; same matcher, same providers
+                if kinds[k].lazy != "no":
+                    cell[0] = kinds[k].currents[combo2[k] - 1]
+            ex3 = bool(m.should_exclude_with(list(tags)))
+            run3 = bool(m.should_run_with(list(tags)))
+            mex3 = [bool(x.should_exclude_with(list(tags))) for x in members]
         except Exception as e:                                   # recorded, judged by the clauses (R4)
             exc = type(e).__name__
             mex = [False] * cfg.nm
+            mex3 = [False] * cfg.nm
         row["ex"].append(ex); row["run"].append(run); row["ex2"].append(ex2); row["mex"].append(mex); row["exc"].append(exc)
+        row["ex3"].append(ex3); row["run3"].append(run3); row["mex3"].append(mex3)
     return row
 
 
@@ -258,7 +273,7 @@ def observe_python_provider(rid, rnd, tags=None, comp=None):
         obj = PY.get(name, PYF.get(name))
         cur = getattr(obj, "value", obj)
         sp = _v(s=cur) if kind == "str" else _v(b=bool(cur)) if kind == "bool" else _v(st=[int(x) for x in cur])
-        cats.append({"name": chars(name), "kind": kind, "op": op, "vo": kind != "str",
+        cats.append({"name": chars(name), "kind": kind, "op": op, "vo": kind != "str", "lazy": "no",
                      "mem": 2 if (comp and name not in PY) else 1, "ch": [sp]})
     if tags is None:
         vers = ["%d.%d" % PY["python.min_version"].value, "2.7", "3.0", "3.99", "3", "4", "3.x", "", "3.5.1"]
@@ -270,8 +285,9 @@ def observe_python_provider(rid, rnd, tags=None, comp=None):
     row = {"id": rid, "cfg": "python_provider", "P": [chars(p) for p in DEFAULT_PREFIXES], "N": [chars("not"), chars("not_active")],
            "sep": ["="], "tags": [chars(t) for t in tags], "warm": [chars("use.with_python3=yes")],
            "pk": "comp" if comp else "dict", "mpk": ["dict", "dict"] if comp else [], "mk": "single", "nm": 0, "ign": True,
-           "judge": True, "cats": cats, "combos": [[1] * len(cats)], "ex": [], "run": [], "ex2": [], "mex": [[]], "exc": []}
-    ex = run = ex2 = False
+           "judge": True, "cats": cats, "combos": [[1] * len(cats)], "combos2": [[1] * len(cats)], "ex": [], "run": [], "ex2": [],
+           "mex": [[]], "exc": [], "ex3": [], "run3": [], "mex3": [[]]}
+    ex = run = ex2 = ex3 = run3 = False
     exc = ""
     try:
         merged = dict(PY)
@@ -281,9 +297,11 @@ def observe_python_provider(rid, rnd, tags=None, comp=None):
         run = bool(m.should_run_with(list(tags)))
         m.should_exclude_with(["use.with_python3=yes"])
         ex2 = bool(m.should_exclude_with(list(tags)))
+        ex3 = bool(m.should_exclude_with(list(tags)))
+        run3 = bool(m.should_run_with(list(tags)))
     except Exception as e:
         exc = type(e).__name__
-    row["ex"], row["run"], row["ex2"], row["exc"] = [ex], [run], [ex2], [exc]
+    row["ex"], row["run"], row["ex2"], row["exc"], row["ex3"], row["run3"] = [ex], [run], [ex2], [exc], [ex3], [run3]
     return row, tags
 
 
@@ -296,7 +314,16 @@ def model_env():
         called = bool(ActiveTagMatcher(ActiveTagValueProvider({})).should_exclude_with(["use.with_c19probe=1"]))
     except Exception:
         called = True
-    return {"C19_UNKNOWN_CALLED": "1" if called else "0"}
+    from behave.tag_matcher import CompositeActiveTagValueProvider
+    cell = ["a"]
+    try:      # does a composite provider freeze the plain callable held by an ActiveTagValueProvider member?
+        m = ActiveTagMatcher(CompositeActiveTagValueProvider([ActiveTagValueProvider({"c19probe": lambda: cell[0]})]))
+        m.should_exclude_with(["use.with_c19probe=a"])
+        cell[0] = "b"
+        freezes = not m.should_exclude_with(["use.with_c19probe=a"])
+    except Exception:
+        freezes = True
+    return {"C19_UNKNOWN_CALLED": "1" if called else "0", "C19_ATVP_FREEZES": "1" if freezes else "0"}
 
 
 def judge_and_report(chk, rows, meta, chunks):
@@ -308,17 +335,21 @@ def judge_and_report(chk, rows, meta, chunks):
     for rid, vs in sorted(verdicts.items()):
         row, m = byid[rid], meta[rid]
         for v in vs:
-            clause, j, what = v[2], v[3], v[4]
+            clause, j, what, phase = v[2], v[3], v[4], v[5]
+            if phase == 2:
+                what += "@changed"
             pk = row["pk"] + (":" + "+".join(row["mpk"]) if row["pk"] == "comp" else "")
             sig = "%s|%s|pk=%s|mk=%s" % (clause, what, pk, row["mk"])
             if clause == "C19.value_objects":
                 sig += "|vo=" + "+".join(sorted({"%s:%s" % (c["kind"], c["op"]) for c in row["cats"] if c["vo"]}))
-            combo = row["combos"][j - 1]
+            combo = row["combos2" if phase == 2 else "combos"][j - 1]
             cur = {"".join(c["name"]) + ("#%d" % c["mem"] if row["cfg"] == "comp_overlap" else ""): _show(c, c["ch"][combo[k] - 1])
                    for k, c in enumerate(row["cats"])}
-            detail = "tags=%s current=%s cfg=%s(provider=%s,matcher=%s) observed exclude=%s run=%s again=%s members=%s exc=%r" % (
+            detail = ("tags=%s current=%s cfg=%s(provider=%s,matcher=%s) observed exclude=%s run=%s again=%s members=%s exc=%r; "
+                      "after the lazy values changed to index %s: exclude=%s run=%s members=%s") % (
                 json.dumps(m["tags"]), json.dumps(cur, sort_keys=True), row["cfg"], row["pk"], row["mk"], row["ex"][j - 1],
-                row["run"][j - 1], row["ex2"][j - 1], row["mex"][j - 1], row["exc"][j - 1])
+                row["run"][j - 1], row["ex2"][j - 1], row["mex"][j - 1], row["exc"][j - 1], row["combos2"][j - 1],
+                row["ex3"][j - 1], row["run3"][j - 1], row["mex3"][j - 1])
             chk.violation(clause, sig, detail, {"cfg": row["cfg"], "tags": m["tags"], "comp": row["pk"] == "comp"})
     return verdicts
 
@@ -403,7 +434,7 @@ def run(chk):
         meta[rid] = {"tags": tags}
     judge_and_report(chk, rows, meta, chunks=WORKERS)
     chk.impl_traces = sum(len(row["combos"]) for row in rows)
-    chk.evaluations = chk.impl_traces * 4
+    chk.evaluations = chk.impl_traces * 6
     for row in (rows[len(rows) // 5], rows[len(rows) // 3 + 1], rows[-1]):
         chk.sample({"cfg": row["cfg"], "tags": meta[row["id"]]["tags"], "exclude_per_value_combination": row["ex"]})
     chk.rule = ("every multiset of <= %d tags of the 30-tag pool (5 prefixes x (2 known categories x 2 values + 1 unknown "
